@@ -294,6 +294,13 @@ impl<'a, 'tcx> Cx<'a, 'tcx> {
             ty::Adt(adt, _) => {
                 // unit-like enum constant: try to give the variant
                 o.put("repr", J::s(with_resolve_crate_name!(with_no_trimmed_paths!(format!("{}", c)))));
+                // named constants of struct type (e.g. a Duration): evaluated form
+                if let Const::Unevaluated(..) = c {
+                    if let Ok(cv) = c.eval(tcx, self.tenv, _sp) {
+                        let ev = Const::Val(cv, ty);
+                        o.put("evalrepr", J::s(with_resolve_crate_name!(with_no_trimmed_paths!(format!("{}", ev)))));
+                    }
+                }
             }
             ty::Closure(did, _) => {
                 o.put("closure", J::s(path_s(tcx, *did)));
